@@ -68,6 +68,8 @@ type caseT struct {
 	AE       *string // nil: header absent
 	Recovery bool    `json:",omitempty"` // recovery.New() in front of the compression middleware
 	Pre      [][2]string `json:",omitempty"` // headers an outer middleware sets before the chain goes on
+	Head     bool        `json:",omitempty"` // HEAD request (otherwise GET)
+	ReqHdr   [][2]string `json:",omitempty"` // further request headers (Range, If-None-Match, ...)
 	Prog     []opT
 	// overlap kind: this case is member Idx of Group — requests served at the same time by ONE router and
 	// ONE middleware instance (options of member 0), their handlers advancing one operation at a time in turn
@@ -542,10 +544,15 @@ func realRun(k *caseT, withMW bool, nw []int) respT {
 		r.Use(compression.New(buildOpts(k.Opt)...))
 	}
 	done := make(chan struct{})
-	r.GET(k.Path, func(c *router.Context) {
+	hf := func(c *router.Context) {
 		defer close(done) // res is read only after the handler has returned (the client may see the end of a Content-Length body earlier)
 		runProg(c, k.Prog, res, nil, nw)
-	})
+	}
+	if k.Head {
+		r.HEAD(k.Path, hf)
+	} else {
+		r.GET(k.Path, hf)
+	}
 	var h http.Handler = r
 	curHandler.Store(&h)
 	return fetch(k, res, done, nw)
@@ -643,12 +650,15 @@ func overlapRun(group []caseT, nws [][]int) []respT {
 }
 
 func fetch(k *caseT, res *runRes, done chan struct{}, nw []int) respT {
-	req, err := http.NewRequest(http.MethodGet, srvURL+k.Path, nil)
+	req, err := http.NewRequest(method(k), srvURL+k.Path, nil)
 	if err != nil {
 		panic(err)
 	}
 	if k.AE != nil {
 		req.Header.Set("Accept-Encoding", *k.AE)
+	}
+	for _, kv := range k.ReqHdr {
+		req.Header.Set(kv[0], kv[1])
 	}
 	resp, err := client.Do(req)
 	select {
@@ -698,7 +708,11 @@ func fetch(k *caseT, res *runRes, done chan struct{}, nw []int) respT {
 		out.Trailer = append(out.Trailer, [2]string{tk, strings.Join(resp.Trailer[tk], "\x00")})
 	}
 	out.CE = resp.Header.Get("Content-Encoding")
-	out.Decoded, out.DecOK = decodeBody(out.CE, raw)
+	if k.Head {
+		out.Decoded, out.DecOK = raw, len(raw) == 0 // a HEAD response carries no body, whatever its Content-Encoding says
+	} else {
+		out.Decoded, out.DecOK = decodeBody(out.CE, raw)
+	}
 	return out
 }
 
@@ -786,6 +800,13 @@ func outer(pre [][2]string, after func()) router.HandlerFunc {
 	}
 }
 
+func method(k *caseT) string {
+	if k.Head {
+		return http.MethodHead
+	}
+	return http.MethodGet
+}
+
 func dryRun(k *caseT) ([]primT, []int) {
 	f := newFake()
 	f.nw = make([]int, len(k.Prog)+1)
@@ -797,13 +818,21 @@ func dryRun(k *caseT) ([]primT, []int) {
 		r.Use(outer(k.Pre, func() { f.last = f.h.Clone() })) // initial headers, not handler operations
 	}
 	res := &runRes{}
-	r.GET(k.Path, func(c *router.Context) {
+	dh := func(c *router.Context) {
 		if !k.Recovery {
 			defer func() { recover() }() //nolint:errcheck // a program panic ends the dry run
 		}
 		runProg(c, k.Prog, res, f, nil)
-	})
-	req, _ := http.NewRequest(http.MethodGet, "http://x"+k.Path, nil)
+	}
+	if k.Head {
+		r.HEAD(k.Path, dh)
+	} else {
+		r.GET(k.Path, dh)
+	}
+	req, _ := http.NewRequest(method(k), "http://x"+k.Path, nil)
+	for _, kv := range k.ReqHdr {
+		req.Header.Set(kv[0], kv[1])
+	}
 	r.ServeHTTP(f, req)
 	f.sync()
 	f.closeGroup()
@@ -992,6 +1021,7 @@ func render(id string, k *caseT, prims []primT, plain, with respT, st *hx.Stats,
 		l.Str("")
 	}
 	l.Bool(k.Recovery)
+	l.Bool(k.Head)
 	pre := map[string]string{}
 	for _, kv := range k.Pre {
 		pre[http.CanonicalHeaderKey(kv[0])] = kv[1]
@@ -1082,6 +1112,12 @@ func render(id string, k *caseT, prims []primT, plain, with respT, st *hx.Stats,
 		}
 		if len(k.Pre) > 0 {
 			st.Count("outer_headers")
+		}
+		if k.Head {
+			st.Count("head_request")
+		}
+		for _, kv := range k.ReqHdr {
+			st.Count("req_" + kv[0])
 		}
 		if with.Kind == "R" && plain.Kind == "R" && with.CE != plain.CE {
 			st.Count("compressed")
